@@ -488,15 +488,20 @@ def main(path):
     pre = Ev(rp, env, snap, graph, classes)
     notes, violations = [], []
 
+    tally = {'true': 0, 'false': 0, 'not_evaluable': 0}
+
     def check(label, text, ev, extra=None, old=False, expect=True):
         try:
             r = ev.ev(text, extra, old)
         except NotEvaluable as e:
             notes.append(f'not evaluable natively: {label} ({e})')
+            tally['not_evaluable'] += 1
             return None
         except Exception as e:
             notes.append(f'error evaluating {label}: {type(e).__name__}: {e}')
+            tally['not_evaluable'] += 1
             return None
+        tally['true' if r else 'false'] += 1
         return bool(r)
 
     # is the entry state a legal one natively?  (requires + invariants)
@@ -562,6 +567,8 @@ def main(path):
                     violations.append(f'on {exc}: clause {n} is false: {t}')
     for x in notes:
         print('note:', x)
+    print(f"TALLY outcome={outcome} entry_legal={entry_ok} clauses_true={tally['true']} clauses_false={tally['false']} "
+          f"not_evaluable={tally['not_evaluable']}")
     if violations and entry_ok:
         for v in violations:
             print('VIOLATED natively:', v)
